@@ -5,6 +5,7 @@ import (
 	"encoding/binary"
 	"encoding/json"
 	"fmt"
+	"os"
 	"reflect"
 
 	"github.com/tormoder/fit"
@@ -28,7 +29,7 @@ func init() {
 		ID:    "C02",
 		Level: "exploration",
 		Rule: "every (message, field) entry of every message observable through a file container x every definition in the compat set (own type; narrower same-signedness integer types; string sizes 1,2,len,255 with/without terminator; arrays of 1,2,3 and profile-length elements; times as 4/2/1-byte unsigned; coordinates as sint32) x both byte orders x boundary payload alphabet x contexts (alone; between two other fields; next to an unknown field; next to developer fields; after a zero-field developer definition; surrounded by unknown-message and other-message records on other local types; all ordered field pairs for record, every message in thorough). " +
-			"Oracle: Decode succeeds, probe field = model denotation, all other fields invalid (component destinations excluded, they belong to C18), neighbouring messages unchanged. distinct = distinct (entry, definition, order, payload, context) cases whose decoded probe value was compared",
+			"Plus a metamorphic family: every data record of every corpus file that decodes (and of the shared streams) is decoded again alone (file_id + its own definition + the record) and must give the same message as inside the file, except for fields that legitimately depend on earlier records. Oracle: Decode succeeds, probe field = model denotation, all other fields invalid (component destinations excluded, they belong to C18), neighbouring messages unchanged. distinct = distinct (entry, definition, order, payload, context) cases whose decoded probe value was compared",
 		Assumptions: []string{"compat set is narrower than what validateFieldDef admits; no verdict from rejections outside it", "narrow-type invalid sentinels and +90 degrees latitude are excluded from value demands", "messages no file container holds are not observable through the public API and are not covered"},
 		Run:         runC02,
 		Replay: func(raw json.RawMessage) (string, error) {
@@ -189,6 +190,23 @@ func newWant(m uint16, ft byte) reflect.Value {
 func runC02(w *vx.W) {
 	p := prof()
 	thorough := !w.Quick()
+	// ---- record independence on the device-file corpus and the shared streams
+	for i, path := range corpusFiles() {
+		if !w.Mine(int64(i)) {
+			continue
+		}
+		b, err := os.ReadFile(path)
+		if err != nil || (!thorough && len(b) > 400000) {
+			continue
+		}
+		c02Independence(w, path, b)
+		w.Fam("independence-files", 1)
+	}
+	for i, s := range []namedStream{sAct3, sAct3BE, sSet, sBig, sMonState, sZero} {
+		if w.Mine(int64(i)) {
+			c02Independence(w, s.Name, s.B)
+		}
+	}
 	var idx int64
 	unknownDef := fitmodel.Def{Local: 2, Global: 0xFF00, Fields: []fitmodel.FieldDef{{Num: 1, Size: 2, Base: fitmodel.Uint16}, {Num: 2, Size: 3, Base: fitmodel.Byte}}}
 	unknownData := fitmodel.Data(2, []byte{0xDE, 0xAD, 0xBE, 0xEF, 0x99})
@@ -226,7 +244,9 @@ func runC02(w *vx.W) {
 		m := uint16(e.Mesg)
 		ft, ok := hostType(m)
 		if !ok {
-			w.Fam("entries-not-observable", 1)
+			if w.Shard == 0 {
+				w.Fam("entries-not-observable", 1)
+			}
 			continue
 		}
 		idx++
@@ -506,6 +526,84 @@ func binaryOrder(big bool) binary.ByteOrder {
 		return binary.BigEndian
 	}
 	return binary.LittleEndian
+}
+
+// c02Independence: metamorphic oracle on real device files and on the harness streams. Every data record of a
+// stream that Decode accepts is also decoded alone (file_id + its own definition + the record); the message must
+// equal the corresponding message of the full decode, except for what legitimately depends on earlier records
+// (timestamps from compressed headers, local timestamps, component destinations / accumulators).
+func c02Independence(w *vx.W, name string, stream []byte) {
+	full := safeDecode(bytes.NewReader(stream))
+	if full.Err != nil || full.Panic != "" {
+		return
+	}
+	p, _, err := fitmodel.ParseOne(stream)
+	if err != nil || p == nil {
+		w.Fam("independence-unparsed-streams", 1)
+		return
+	}
+	ft := byte(full.File.Type())
+	seen := map[uint16]int{}
+	total := map[uint16]int{}
+	for _, r := range p.Recs {
+		total[r.Def.Global]++
+	}
+	for ri, r := range p.Recs {
+		g := r.Def.Global
+		k := seen[g]
+		seen[g]++
+		if g == 0 || ri == 0 || !slotHosted(ft, g) {
+			continue
+		}
+		if !slotIsSlice(ft, g) && k != total[g]-1 {
+			continue // single-valued member: only the last record is visible
+		}
+		all := messagesOf(full.File, g)
+		var fullMsg reflect.Value
+		if slotIsSlice(ft, g) {
+			if k >= len(all) {
+				w.Violation("record-independence/count", fmt.Sprintf("%s: %d data records of %v but only %d messages decoded", name, total[g], fit.MesgNum(g), len(all)), c02Replay{Hex: trunc(vx.Hex(stream), 4000), Mesg: g, Context: "independence"})
+				return
+			}
+			fullMsg = all[k]
+		} else {
+			if len(all) != 1 {
+				continue
+			}
+			fullMsg = all[0]
+		}
+		d := fitmodel.Def{Local: 1, Big: r.Def.Big, Global: g, Fields: r.Def.Fields, DevFlag: r.Def.DevFlag, Dev: r.Def.Dev}
+		mini := fitmodel.File(fitmodel.DefaultHeader, append(fitmodel.FileIdRecords(0, ft), d.Bytes(), fitmodel.Data(1, r.Payload))...)
+		res := safeDecode(bytes.NewReader(mini))
+		w.Eval(1)
+		w.Fam("independence-records", 1)
+		rep := c02Replay{Hex: vx.Hex(mini), Mesg: g, Context: fmt.Sprintf("record #%d of %s decoded alone", ri, name)}
+		if res.Err != nil || res.Panic != "" {
+			w.Violation("record-independence/decode", fmt.Sprintf("%s: record #%d (%v) decodes inside the file but not alone: %v %s", name, ri, fit.MesgNum(g), res.Err, res.Panic), rep)
+			continue
+		}
+		alone := messagesOf(res.File, g)
+		if len(alone) != 1 {
+			w.Violation("record-independence/decode", fmt.Sprintf("%s: record #%d (%v) alone yields %d messages", name, ri, fit.MesgNum(g), len(alone)), rep)
+			continue
+		}
+		ignore := map[string]bool{}
+		for n := range compIgnore(fullMsg) {
+			ignore[n] = true
+		}
+		for n := range compIgnore(alone[0]) {
+			ignore[n] = true
+		}
+		mt := fullMsg.Type()
+		for _, e := range prof().byMesg[g] {
+			if e.Kind == kindLocal || (r.Compressed && e.Kind == kindUTC && e.Num == 253) {
+				ignore[mt.Field(e.Sindex).Name] = true
+			}
+		}
+		if dmsg := diffMsg(fullMsg, alone[0], ignore); dmsg != "" {
+			w.Violation("record-independence/value", fmt.Sprintf("%s: record #%d (%v) decodes differently inside the file than alone: %s (in file vs alone)", name, ri, fit.MesgNum(g), dmsg), rep)
+		}
+	}
 }
 
 // ppOrder re-expresses the natural probe payload (ascending bytes) so that it
